@@ -17,7 +17,9 @@ UNIT = dict(
         modules=[SUPPORT_MODULE, dict(file=FR, name="fv_g7", slices=[dict(
             name="fv_slice_x_in", file=FR, fn="resample_nearest",
             stmts_from="let x_scale = ", stmts_to="let x_in_tab", closure=".map(|x| ((x_in_start",
-            params="crop_box: CropBox, dst_width: u32, dst_height: u32, src_view: &crate::fv_support::FvDims, x: u32", ret="usize")],
+            params="crop_box: CropBox, dst_width: u32, dst_height: u32, src_view: &crate::fv_support::FvDims, x: u32", ret="usize"),
+            dict(name="fv_slice_y_in_start<V: crate::ImageView>", file=FR, fn="resample_nearest", stmts_from="let x_scale = ", stmts_to="let src_rows =",
+                 params="crop_box: CropBox, dst_width: u32, dst_height: u32, src_view: &V", ret="f64", post="y_in_start")],
             code="""
     use crate::fv_support::FvDims;
 
@@ -76,9 +78,9 @@ UNIT = dict(
         // source 1x8; crop height and destination height concrete, crop top EVERY f64 accepted by crop()
         let top: f64 = kani::any();
         kani::assume(top >= 0. && top < 8. && top + ch <= 8.);
-        // the statements of resample_nearest that feed the row iterator
+        // the statements of resample_nearest that feed the row iterator (verbatim slice)
         let y_scale = ch / dh as f64;
-        let y_in_start = top + y_scale * 0.5;
+        let y_in_start = fv_slice_y_in_start(CropBox { left: 0., top, width: 1., height: ch }, 1, dh, view);
         let mut n: u32 = 0;
         for row in view.iter_rows_with_step(y_in_start, y_scale, dh) {
             let got = unsafe { row.as_ptr().offset_from(base) } as f64;       // width 1: offset == row index
@@ -110,7 +112,7 @@ UNIT = dict(
         let top: f64 = kani::any();
         kani::assume(top >= 0. && top < 4. && top + ch <= 4.);
         let y_scale = ch / dh as f64;
-        let y_in_start = top + y_scale * 0.5;
+        let y_in_start = fv_slice_y_in_start(CropBox { left: 0., top, width: 1., height: ch }, 1, dh, &v);
         let mut n: u32 = 0;
         for row in v.iter_rows_with_step(y_in_start, y_scale, dh) {
             let got = unsafe { row.as_ptr().offset_from(base) } as f64;
@@ -123,6 +125,7 @@ UNIT = dict(
         assert!(n == dh);
     }
     #[kani::proof] #[kani::unwind(10)] fn g7_rows_typed_ref_6_to_3() { rows_typed_ref(6.0, 3) }
+    #[kani::proof] #[kani::unwind(10)] fn g7_rows_typed_ref_subulp_to_1() { rows_typed_ref(8.881784197001252e-16, 1) }
     #[kani::proof] #[kani::unwind(10)] fn g7_rows_typed_ref_3_to_2() { rows_typed_ref(3.0, 2) }
     #[kani::proof] #[kani::unwind(6)] fn g7_rows_default_impl_2_to_2() { rows_default_small(2.0, 2) }
     #[kani::proof] #[kani::unwind(6)] fn g7_rows_default_impl_3_to_2() { rows_default_small(3.0, 2) }
@@ -161,6 +164,9 @@ UNIT = dict(
             dict(name="g7_rows_default_impl_3_to_2", kind="bounded", covers=1, timeout=1200,
                  bound="source 1x4, crop height 3.0 -> 2 rows (concrete), EVERY f64 crop top accepted by crop(); default ImageView::iter_rows_with_step (TypedImage)",
                  claim="exactly dst_h rows are produced and row y is floor(top + (y+0.5)*ch/dh) (either neighbour within 1e-9 of a pixel edge)"),
+            dict(name="g7_rows_typed_ref_subulp_to_1", kind="bounded", covers=1, timeout=1200,
+                 bound="source 1x8, crop height 2^-50 (one ulp of a crop top in [4,8)) -> 1 row, EVERY f64 crop top accepted by crop()",
+                 claim="exactly one row is produced, the row under the crop (a crop flush against the bottom edge included)"),
             dict(name="g7_col_in_bounds", kind="complete", covers=1, timeout=900,
                  claim="for every crop box accepted by crop(), every W, dst_w, x < dst_w: the tabulated column is < W"),
             dict(name="g7_col_is_pixel_under_centre", kind="complete", covers=1, timeout=1500, tier="thorough",
